@@ -26,7 +26,7 @@ def contains_term(t, sub):
     return any(s == sub for s in P.walk(t))
 
 
-def _two_pass(ctx, F, fn, pr, fl, main, rule, is_p, is_b, lt_edges, le_edges, assign_blocks, made, ty):
+def _two_pass(ctx, F, fn, pr, fl, main, rule, is_p, is_b, lt_edges, le_edges, assign_blocks, made, ty, by_min=False):
     """the two-pass form of the selection: (1) best = min over all players (`if p < best { best = p }` for every player),
     (2) after that loop, every player's flag is set to (its own index == best).  Returns whether the flag pass has that form;
     problems of pass 1 are reported under `rule`."""
@@ -35,11 +35,17 @@ def _two_pass(ctx, F, fn, pr, fl, main, rule, is_p, is_b, lt_edges, le_edges, as
     if len(assign_blocks) != 1:
         raise U(rule, f"expected one `best = p` in the player loop; found {len(assign_blocks)}", fn)
     ab = assign_blocks[0]
-    if not I.guarded_by(fn, ab, le_edges, start=main.header):
-        problems.append(("best-update", "`best = p` is not guarded by `p < best`", ab))
-    inner_lt = [(b, l) for (b, l) in lt_edges if b in main.body]
-    if not inner_lt:
-        problems.append(("best-update", "no `p < best` test in the player loop", ab))
+    if by_min:
+        # best = best.min(p) for every player
+        if not L.in_every_iteration(fn, main, ab):
+            problems.append(("best-update", "`best = best.min(p)` is not executed for every player", ab))
+        inner_lt = []
+    else:
+        if not I.guarded_by(fn, ab, le_edges, start=main.header):
+            problems.append(("best-update", "`best = p` is not guarded by `p < best`", ab))
+        inner_lt = [(b, l) for (b, l) in lt_edges if b in main.body]
+        if not inner_lt:
+            problems.append(("best-update", "no `p < best` test in the player loop", ab))
     for (b, l) in inner_lt:
         tgt = [t for l_, t in fn.cfg.succ_edges[b] if l_ == l][0]
         r = I.reachable_avoiding(fn, [], start=tgt, removed_blocks=[ab])
@@ -230,6 +236,11 @@ def run(ctx, prefix="C03", set_explanation=True):
     nones = [b for b in sorted(fn.cfg.reachable) for s in fn.blocks[b]["stmts"]
              if s["k"] == "assign" and s["place"]["l"] == 0 and not s["place"]["proj"]
              and pr.rvalue(s["rv"])[0] == "agg" and pr.rvalue(s["rv"])[1].endswith("Option::None")]
+    # `helper(..)?` returning the helper's None: `_0 = FromResidual::from_residual(..)` of an Option
+    for b_, t_ in fn.calls():
+        if b_ in fn.cfg.reachable and t_["callee"].get("name") == "from_residual" and "Option" in (t_["callee"].get("full") or "") \
+                and t_["dest"]["l"] == 0 and not t_["dest"]["proj"]:
+            nones.append(b_)
     if seen != {0, 1}:
         ctx.violation(rule, f"{fn.path}|hole-cards-tested", f"only hole card(s) {sorted(seen)} are tested against the board",
                       fn=fn.path, file=fn.file, line=fn.line)
@@ -252,19 +263,30 @@ def run(ctx, prefix="C03", set_explanation=True):
 
     def is_p(t):
         s = P.strip(t)
-        if s[0] == "call" and len(s[2]) == 1 and P.strip(s[2][0]) == made:
+        if s[0] == "call" and len(s[2]) == 1:
             g = F.fns.get(s[1])
-            return g is not None and I.getter_field(g) is not None
-        return s[0] == "field" and P.strip(s[1]) == made
+            if g is None or I.getter_field(g) is None:
+                return False
+            a_ = P.strip(s[2][0])
+            # also through the record just built for this player (`record.hand.power_index()`, `ShowdownPlayer::new(..)?`)
+            return a_ == made or P.strip(P.narrow_deep(a_)) == made
+        return s[0] == "field" and (P.strip(s[1]) == made or P.strip(P.narrow_deep(P.strip(s[1]))) == made)
     best = None
+    best_by_min = False
     for l, ds in pr.defs.items():
         if len(ds) < 2:
             continue
         alts = P.alts(pr.local(l))
         inits = [a for a in alts if P.const_int(a) is not None]
         ps = [a for a in alts if is_p(a)]
+        # best = best.min(p)
+        mins = [a for a in alts if a[0] == "call" and a[1] == "std::cmp::Ord::min" and len(a[2]) == 2 and
+                any(P.strip(x) == ("self", l) for x in a[2]) and any(is_p(x) for x in a[2])]
         if len(alts) == 2 and len(inits) == 1 and len(ps) == 1:
             best = (l, P.const_int(inits[0]), ds)
+        elif len(alts) == 2 and len(inits) == 1 and len(mins) == 1 and fn.local_ty(l) in ("u8", "u16", "u32", "u64", "usize"):
+            best = (l, P.const_int(inits[0]), ds)
+            best_by_min = True
     if best is None:
         raise U(rule, "running best (init constant, updated with the player's index) not found", fn)
     bl, binit, bdefs = best
@@ -281,6 +303,8 @@ def run(ctx, prefix="C03", set_explanation=True):
     lt_edges = I.edges_implying(fn, pr, "Lt", is_p, is_b, F=F)
     le_edges = I.edges_implying(fn, pr, "Le", is_p, is_b, F=F)
     assign_blocks = [bi for (bi, si, kind, payload) in bdefs if kind == "rv" and bi in main.body and is_p(pr.rvalue(payload))]
+    if best_by_min:
+        assign_blocks = [bi for (bi, si, kind, payload) in bdefs if bi in main.body]
     # winner set: the HashSet receiving insert(pos)
     ins, clr = [], []
     wset = None
@@ -298,7 +322,8 @@ def run(ctx, prefix="C03", set_explanation=True):
     two_pass = wset is None and not uses_set
     flag_two_pass_ok = None
     if two_pass:
-        flag_two_pass_ok = _two_pass(ctx, F, fn, pr, fl, main, rule, is_p, is_b, lt_edges, le_edges, assign_blocks, made, ty)
+        flag_two_pass_ok = _two_pass(ctx, F, fn, pr, fl, main, rule, is_p, is_b, lt_edges, le_edges, assign_blocks, made, ty,
+                                     by_min=best_by_min)
     elif wset is None or not ins:
         raise U(rule, "no winners.insert(position) found", fn)
     else:
@@ -487,8 +512,26 @@ def run(ctx, prefix="C03", set_explanation=True):
                 inc_blocks = [bi for (bi, si, kind, payload) in ds if kind == "rv" and prw.rvalue(payload)[0] == "bin"]
         okw = whole and len(alts) == 2 and len(inc) == 1 and len(ini) == 1 and bool(edges) and bool(inc_blocks) and \
             all(I.guarded_by(wl, ib_, edges, start=lw.header) for ib_ in inc_blocks)
+        if not okw and whole and len(alts) == 2 and len(ini) == 1:
+            # acc += u8::from(player.win) for every player (bool -> 0/1)
+            adds = [a for a in alts if a[0] == "bin" and a[1] == "Add" and P.strip(a[2])[0] == "self"]
+            if len(adds) == 1:
+                ad = P.strip(adds[0][3], calls=False)
+                flag_t = None
+                if ad[0] == "call" and "From<bool> for u" in ad[1] and ad[1].endswith(">::from") and len(ad[2]) == 1:
+                    flag_t = P.strip(ad[2][0])
+                elif ad[0] == "cast" and ad[1] == "IntToInt" and ad[3] == "bool":
+                    flag_t = P.strip(ad[2])
+                item_ = P.strip(lw.item_term)
+                is_flag = flag_t is not None and flag_t[0] == "field" and flag_t[2] == k and P.strip(flag_t[1]) == item_
+                blocks_ = []
+                for l, ds in prw.defs.items():
+                    if prw.local(l) == acc and len(ds) >= 2:
+                        blocks_ = [bi for (bi, si, kind, payload) in ds if kind == "rv" and prw.rvalue(payload)[0] == "bin"]
+                okw = is_flag and bool(blocks_) and all(L.in_every_iteration(wl, lw, b_) for b_ in blocks_) and not runpass.early_exits(wl, lw)
+                edges = []
         # every flagged player is counted: the true edge leads to the increment
-        if okw:
+        if okw and edges:
             for b, lab in edges:
                 tgt = [t_ for l_, t_ in wl.cfg.succ_edges[b] if l_ == lab][0]
                 r2 = I.reachable_avoiding(wl, [], start=tgt, removed_blocks=inc_blocks)
